@@ -99,6 +99,12 @@ func rulesC02(cx *Ctx) []Obligation {
 			obs = append(obs, o)
 		}
 	}
+	// the 97-input inner circuit's public-input hash ends in a partial chunk: the sponge must keep the previous
+	// lanes there (plonky2's overwrite mode), otherwise that honest proof is rejected under every backend
+	for _, o := range ruleSpongeOverwrite(cx) {
+		o.Key = "C02/honest-pi-hash/" + strings.TrimPrefix(o.Key, "C09/O9.4/")
+		obs = append(obs, o)
+	}
 	obs = append(obs, rulesW2(cx)...)
 	return obs
 }
